@@ -40,6 +40,7 @@ type execCase struct {
 	order  []string
 	faults map[string]string
 	sfx    string
+	parZero bool // pass MaxParallelism 0 (the compiler's default) — `par` then states the effective value
 	cancel int // cancel the context after this many resolver calls (<0: never)
 	abort  int // reporter aborts at k-th error (<0: never; -2: nil reporter)
 }
@@ -60,6 +61,8 @@ func parseExecCase(op string) (*execCase, bool) {
 			c.par, _ = strconv.Atoi(v)
 		case "req":
 			c.req = strings.Split(v, ",")
+		case "parzero":
+			c.parZero = v == "1"
 		case "sched":
 			c.sched, _ = strconv.ParseUint(v, 10, 64)
 		case "cancel":
@@ -406,6 +409,9 @@ func (execEngine) Exec(op string) string {
 		return protocompile.SearchResult{Source: fr}, nil
 	})
 	comp := protocompile.Compiler{Resolver: res, MaxParallelism: c.par}
+	if c.parZero {
+		comp.MaxParallelism = 0
+	}
 	var repMu sync.Mutex
 	nReported := 0
 	inRep, maxRep := 0, 0
@@ -597,6 +603,14 @@ func (execEngine) Gen(r *Rand, tier string) [][]string {
 				}
 			}
 		}
+	}
+	// (1f) default parallelism (MaxParallelism 0 = min(NumCPU, GOMAXPROCS))
+	defPar := runtime.GOMAXPROCS(-1)
+	if n := runtime.NumCPU(); n < defPar {
+		defPar = n
+	}
+	for _, g := range []string{"a:b,c;b:d;c:d;d:", "a:b;b:a", "a:b,c,d,e;b:;c:;d:;e:"} {
+		add(fmt.Sprintf("compile par=%d parzero=1 req=a sched=%d graph=%s faults=-", defPar, r.Intn(100000), g))
 	}
 	// (1e) implicit dependency on a custom descriptor.proto that itself imports a file
 	add("dpcompile par=2 req=x")
